@@ -184,7 +184,11 @@ impl BpDriver {
     fn patched(&self) -> Option<BTreeSet<u64>> {
         let pid = self.debuggee_pid()?;
         let mut out = BTreeSet::new();
-        for m in ns::maps(pid).iter().filter(|m| m.perms.contains('x') && m.path == self.program) {
+        // executable mappings, and the read-only first segment (ELF header, dynamic tables): the line
+        // table of a program with dead-stripped instantiations has rows at addresses 0.., and a
+        // breakpoint the debugger resolves to such a row is written there (RELRO pages differ
+        // from the file by relocation and are not compared)
+        for m in ns::maps(pid).iter().filter(|m| m.path == self.program && (m.perms.contains('x') || (!m.perms.contains('w') && m.offset == 0))) {
             let file = std::fs::read(&m.path).ok()?;
             let len = (m.end - m.start) as usize;
             let mem = ns::read_mem(pid, m.start, len)?;
